@@ -745,6 +745,11 @@ func variationCase(c *core.Ctx, r *core.Rand, i int) {
 			return []byte(fmt.Sprintf(`<%s%s type="%s" value="%s"/>`, sm[1], sm[2], sm[3], sm[4]))
 		})
 	}
+	if kind == "attribute-order" && i%16 == 15 {
+		// structures with their type spelled out (the default may be written)
+		doc = structOpenRe.ReplaceAll(doc, []byte(`<$1 type="Structure">`))
+		c.Count("variations.explicit-structure-type", 1)
+	}
 	c.Count("variations."+kind, 1)
 	c.Distinct(core.HashBytes(doc))
 	out, outDoc, rej, ok := through(c, doc, v.response, "variation of an OASIS vector ("+kind+")")
@@ -957,6 +962,8 @@ func localZoneCase(c *core.Ctx, r *core.Rand, i int) {
 	c.Distinct(core.Hash64("local-zone", fmt.Sprint(i)))
 }
 
+var structOpenRe = regexp.MustCompile(`<([A-Za-z_0-9]+)>`)
+
 var usageMaskAttrRe = regexp.MustCompile(`(<AttributeName type="TextString" value="Cryptographic Usage Mask"/>\s*(?:<AttributeIndex [^>]*/>\s*)?)<AttributeValue type="Integer" value="(\d+)"/>`)
 
 var attrOrderRe = regexp.MustCompile(`<([A-Za-z_0-9]+)((?: tag="[^"]*")?) type="([A-Za-z]+)" value="([^"']*)"/>`)
@@ -982,7 +989,7 @@ func Spec() *core.Spec {
 			"value variations and corpus-derived optional-element removals. plus six fresh processes whose local time zone is not UTC (dates in the first and last hours of years 1..9999), vectors with XML attributes in another order, 8 goroutines producing documents with unnamed enumeration values at once, and (fresh process) standard names read after vendor values were registered for four enumerations. distinct = distinct layout shapes / documents",
 		Assumptions: []string{"TZ=UTC", "harness/xtree is an independent reading of KMIP 1.4 Profiles §5.4/§5.5 by the same author", "placeholders ($NOW, $UNIQUE_IDENTIFIER_n, …) are substituted before both sides see the vector",
 			"an element is optional in a context if the corpus contains an instance of that context without it; rejections of such removals are counted, not judged"},
-		Required: []string{"docs.xml", "docs.json", "py_judged.xml", "py_judged.json", "vectors_supported", "variations.value", "variations.optional-element", "variations.attribute-order", "variations.date-with-offset", "variations.boolean-numeric", "variations.mask-list-whitespace", "docs_from_reused_encoders", "concurrent_documents", "vendor_registration_docs", "local_zone_dates", "ladder.enum-named", "ladder.mask-bit31", "ladder.text-json-control", "ladder.long-near-2^52"},
+		Required: []string{"docs.xml", "docs.json", "py_judged.xml", "py_judged.json", "vectors_supported", "variations.value", "variations.optional-element", "variations.attribute-order", "variations.date-with-offset", "variations.boolean-numeric", "variations.explicit-structure-type", "variations.mask-list-whitespace", "docs_from_reused_encoders", "concurrent_documents", "vendor_registration_docs", "local_zone_dates", "ladder.enum-named", "ladder.mask-bit31", "ladder.text-json-control", "ladder.long-near-2^52"},
 		// a data race inside the codec while documents are being produced means one document may carry another one's
 		// content: a violation when both stacks end in package ttlv (other reports print as diagnostics)
 		RaceVerdict: func(r core.RaceReport) (string, bool) {
